@@ -118,6 +118,30 @@ def profile_cases(draw):
             "lam": draw(st.one_of(st.none(), gen.logfloat(0.3e-6, 25e-6)))}
 
 
+@st.composite
+def bcast_cases(draw):
+    N = draw(st.integers(1, 6))
+    T = draw(st.integers(1, 6))
+    seed = draw(st.integers(0, 2**32 - 1))
+    rng = gen.np_rng(seed)
+    return {"cn2": np.exp(rng.uniform(math.log(1e-17), math.log(1e-12), size=N)), "stack": np.exp(rng.uniform(math.log(5), math.log(2e4), size=(T, N))),
+            "which": draw(st.sampled_from(["coherenceTime", "isoplanaticAngle", "rytov_variance"])), "explicit_axis": draw(st.sampled_from([None, -1, 1])),
+            "lam": draw(st.one_of(st.none(), gen.logfloat(0.3e-6, 25e-6)))}
+
+
+def bcast_body(ctx, case):
+    """A single Cn2 profile against a stack of wind (or altitude) profiles broadcasts: one result per stacked profile."""
+    ac, _, _ = A()
+    cn2, stack, f = case["cn2"], case["stack"], getattr(A()[0], case["which"])
+    kw = {} if case["lam"] is None else {"lamda": case["lam"]}
+    kwa = dict(kw) if case["explicit_axis"] is None else dict(kw, axis=case["explicit_axis"])
+    ctx.case(case, nontrivial=stack.shape[0] != stack.shape[1], classes=[case["which"], "T_eq_N" if stack.shape[0] == stack.shape[1] else "T_ne_N"])
+    got = np.asarray(f(cn2, stack, **kwa))
+    per = np.array([f(cn2, stack[i], **kw) for i in range(stack.shape[0])])
+    ctx.require(got.shape == per.shape, "%s(cn2 (N,), stack (T,N)): shape %s, expected %s" % (case["which"], got.shape, per.shape))
+    ctx.close(got, per, 1e-12, "%s with one Cn2 profile and a stack of profiles == loop over the stack" % case["which"], name="broadcast " + case["which"])
+
+
 def profile_body(ctx, case):
     ac, _, _ = A()
     cn2, h, v, axis, lam = case["cn2"], case["h"], case["v"], case["axis"], case["lam"]
@@ -232,6 +256,7 @@ LAWS = [
     given_law("conversions", conv_cases(), conv_body, {"quick": 1500, "thorough": 20000}, shards={"quick": 3, "thorough": 16}),
     given_law("slopes", slope_cases(), slope_body, {"quick": 500, "thorough": 7500}, shards={"quick": 3, "thorough": 16}),
     given_law("profiles", profile_cases(), profile_body, {"quick": 800, "thorough": 12500}, shards={"quick": 3, "thorough": 16}),
+    given_law("profiles_broadcast", bcast_cases(), bcast_body, {"quick": 400, "thorough": 2500}, shards={"quick": 2, "thorough": 16}),
     given_law("single_layer", layer_cases(), layer_body, {"quick": 800, "thorough": 12500}, shards={"quick": 3, "thorough": 16}),
     given_law("photometry", photo_cases(), photo_body, {"quick": 1000, "thorough": 15000}, shards={"quick": 3, "thorough": 16}),
     plain_law("bands_exhaustive", band_cases, band_body),
